@@ -372,20 +372,6 @@ func cmdCheck(args []string) int {
 			if o.Kind == "attach" || o.Kind == "engine" || o.Kind == "contract" {
 				f.Backend = "attach"
 			}
-			if why, drift := e.drifted[o.Func]; drift {
-				// the contract was written for another shape of this function (a loop it has a clause for is
-				// gone): what can still be proved is proved, what cannot is undecided, unless a solver refutes it
-				refuted := false
-				for _, q := range o.Queries {
-					if q.Res.Status == "sat" && q.Expect != "sat" {
-						refuted = true
-					}
-				}
-				if !refuted {
-					f.Backend = "attach"
-					f.Detail = why + "; not discharged for the function as it is now: " + f.Detail
-				}
-			}
 			for _, q := range o.Queries {
 				if q.Res.Status != "unsat" && q.Expect != "sat" {
 					f.SolverOut = q.Res.Solver + ": " + q.Res.Status + " " + firstLine(q.Res.Output)
@@ -440,6 +426,14 @@ func cmdCheck(args []string) int {
 					}
 					break
 				}
+			}
+			if why, drift := e.drifted[o.Func]; drift && f.NoInput {
+				// the contract was written for another shape of this function (a loop it has a clause for is
+				// gone): what can still be proved is proved; what cannot is undecided — also when a solver
+				// finds a model, unless that model was replayed on the real code and failed there (a helper
+				// without contract makes values arbitrary that the real code constrains)
+				f.Backend = "attach"
+				f.Detail = why + "; not discharged for the function as it is now: " + f.Detail
 			}
 			failures = append(failures, f)
 		}
